@@ -233,8 +233,15 @@ def content_type_rules(ctx, prog, ser, pk, spec, ox, rid):
     param = gi.node.args.args[1].arg
     O, D = "self._overrides", "self._defaults"
     rows = P_.outcomes(gx.body, P_.aliases(gx))
-    by_name = [r for r in rows if r.end == "return" and r.value == "%s[%s]" % (O, param)]
-    by_ext = [r for r in rows if r.end == "return" and r.value == "%s[%s.ext]" % (D, param)]
+    gval = P_.value_aliases(gx)
+
+    def rv(r):
+        """the returned expression with single-assignment locals written out"""
+        return P_.full(r.value, gval) if r.value else r.value
+
+    by_name = [r for r in rows if r.end == "return" and rv(r) in ("%s[%s]" % (O, param), "%s.get(%s)" % (O, param))]
+    # (a `.get()` read is the same look-up as far as precedence goes; whether it lowers the key is the API-discipline rule's business)
+    by_ext = [r for r in rows if r.end == "return" and rv(r) in ("%s[%s.ext]" % (D, param), "%s.get(%s.ext)" % (D, param), "%s.get(%s.ext, None)" % (D, param))]
     probs = []
     for r in by_ext:
         if not P_.implied(r.facts, lambda a: a[0] == "in" and a[1] == param and a[2] == O and a[3] is False):
@@ -244,7 +251,8 @@ def content_type_rules(ctx, prog, ser, pk, spec, ox, rid):
             probs.append("a part with an Override does not get the Override's type")
     missing = [r for r in rows if P_.implied(r.facts, lambda a: a[0] == "in" and a[1] == param and a[2] == O and a[3] is False)
                and P_.implied(r.facts, lambda a: (a[0] == "in" and a[1] == param + ".ext" and a[2] == D and a[3] is False)
-                              or (a[0] == "none" and a[1] == "%s.get(%s.ext)" % (D, param) and a[2] is True))]
+                              or (a[0] == "none" and P_.full(a[1], gval) in ("%s.get(%s.ext)" % (D, param), "%s.get(%s.ext, None)" % (D, param))
+                                  and a[2] is True))]
     if by_name and by_ext and not probs and missing and all(r.end == "raise" for r in missing):
         ctx.ok(rid, "_ContentTypeMap.__getitem__", sample={"precedence": "Override by part name, then Default by extension, else %s" % missing[0].exc})
     elif probs:
@@ -343,6 +351,30 @@ def content_type_rules(ctx, prog, ser, pk, spec, ox, rid):
                                   ".%s() compares the key as given, so a differently-cased extension / part name is not found" % (ast.unparse(n)[:60], m),
                                   file=g.file, line=n.lineno)
     ctx.count("case_insensitive_dict_calls", n_use)
+    # a part class registered for a content type reports that type when the part is written: a class-level `content_type`
+    # constant shadows the type the part was loaded with, so every registry row for that class must carry the same constant
+    from checks.c15 import part_class_registry
+
+    n_reg = 0
+    for ct, cls in sorted(part_class_registry(prog, ctx).items()):
+        const_ct = None
+        for k in prog.mro(cls):
+            if "content_type" in getattr(k, "methods", {}):
+                break                                  # the property reporting the loaded type
+            if "content_type" in getattr(k, "attrs", {}):
+                const_ct = prog.const(k.attrs["content_type"], k.module, None, k)
+                break
+        if const_ct is None:
+            continue
+        n_reg += 1
+        key = "registry:%s->%s" % (ct, cls.name)
+        if const_ct == ct:
+            ctx.ok(rid, key, nontrivial=False)
+        elif isinstance(const_ct, str):
+            ctx.violation(rid, key, "parts of type %s are loaded as %s, whose class-level content_type is %s: the part is written back with a "
+                          "different content type than it was opened with" % (ct, cls.name, const_ct), file=cls.file, line=cls.line)
+        else:
+            ctx.error(key, "class-level content_type of %s does not fold" % cls.name)
 
 
 
